@@ -1,5 +1,5 @@
 """C04 — only the reply to the outstanding request is delivered (E/W/P/T rules on MIR)."""
-from .. import cfg, flow
+from .. import cells, cfg, flow
 from ..facts import callee_path, const_int
 
 SOCKETS = {
@@ -371,7 +371,7 @@ def version_check(ctx, rep, rule):
             if not eqs:
                 rep.violation(rule, key, "msgSecurityModel is not compared for equality with 3 (USM): an ordering test lets other models through", body.loc(), obligation=True)
             else:
-                rep.check(rule, key, cfg.must_pass(body, [0], oks, {ea[2] for g, ea in eqs}), "Ok(..) only for msgSecurityModel == 3",
+                rep.check(rule, key, any(cells.edge_guards_goals(body, ea[2], ea[3], oks) for g, ea in eqs), "Ok(..) only for msgSecurityModel == 3",
                           "a message with another security model can be decoded successfully", body.loc(eqs[0][0].line), obligation=True)
 
 
